@@ -11,7 +11,8 @@
 (*           columns, sorted rows and the full dump must be the ones the model *)
 (*           predicts from the engine's run (eff = "stmt": the engine's dump,  *)
 (*           "none": the dump of the untouched graph).                         *)
-(* Error messages are not compared; PROFILE rows carry wall-clock timings and  *)
+(* Error messages are not compared; EXPLAIN/PROFILE rows are plan text with     *)
+(* unordered statistics listings and PROFILE rows carry wall-clock timings and  *)
 (* are compared by columns only.                                               *)
 EXTENDS FrontEnds, TraceBase
 
@@ -53,7 +54,7 @@ ObsOK(r) ==
     IN  /\ o.out = m.out
         /\ (m.out = "rows" /\ m.same) =>
                /\ o.cols = eobs.cols
-               /\ cur.st.ex # "PROFILE" => o.rows = eobs.rows
+               /\ cur.st.ex = "" => o.rows = eobs.rows     \* EXPLAIN / PROFILE rows are plan text with statistics listings and timings: columns only
         /\ o.dump.full = (IF m.eff = "stmt" THEN eobs.dump ELSE eobs.g0)
 
 T_Serve ==
